@@ -1,12 +1,12 @@
 package main
 
 import (
-	"math"
-	"golang.org/x/tools/go/ssa"
 	"crypto/sha1"
 	"crypto/sha256"
 	"fmt"
 	"go/types"
+	"golang.org/x/tools/go/ssa"
+	"math"
 	"math/big"
 	"strings"
 )
@@ -576,19 +576,23 @@ func init() {
 
 // hash.Hash objects (ripemd160.New): opaque accumulator; Sum applies the hash UF.
 type hasherState struct {
-	alg  string
-	n    int
-	data []Value
+	alg    string
+	n      int
+	data   []Value
+	shared bool // created by a package initialiser: a package-level hasher, its state is shared by all executions
 }
 
 func init() {
 	intrinsics["golang.org/x/crypto/ripemd160.New"] = func(in *Interp, fr *frame, args []Value) Value {
-		return Iface{T: opaqueErrType, V: &Opaque{Kind: "hasher", Data: &hasherState{alg: "ripemd160", n: 20}}}
+		return Iface{T: opaqueErrType, V: &Opaque{Kind: "hasher", Data: &hasherState{alg: "ripemd160", n: 20, shared: in.inInit}}}
 	}
 }
 
 func (in *Interp) hasherMethod(o *Opaque, name string, args []Value) Value {
 	h := o.Data.(*hasherState)
+	if h.shared && !in.inInit && (name == "Write" || name == "Reset") {
+		in.sharedWrites = append(in.sharedWrites, "state of a package-level hash.Hash ("+h.alg+")")
+	}
 	switch name {
 	case "Write":
 		b := args[1].(Slice).A
